@@ -55,7 +55,7 @@ Lemma frame_ok_decision sa t with_age e :
    | Some (spd0, tm) =>
        (spd0 = 0 -> e_state e <> Starting)
        /\ (spd0 = 0 -> e_state (t_status t) = Request -> e_state e = Stopping)
-       /\ (with_age = true -> volvo_timeout_ms < t_now t - tm -> e_state e <> Starting)
+       /\ (with_age = true -> volvo_timeout_ms <= t_now t - tm -> e_state e <> Starting)
    | None => True end) ->
   frame_ok sa t with_age (gov_frame sa (Ok e)) = true.
 Proof.
@@ -76,7 +76,7 @@ Proof.
   - destruct ((spd0 =? 0) && estate_eqb (e_state (t_status t)) Request) eqn:E; [|reflexivity]. cbn [implb].
     apply andb_prop in E as [E1 E2].
     rewrite H2; [reflexivity | lia | destruct (e_state (t_status t)); try discriminate; reflexivity].
-  - destruct (with_age && (volvo_timeout_ms <? t_now t - tm)) eqn:E; [|reflexivity]. cbn [implb].
+  - destruct (with_age && (volvo_timeout_ms <=? t_now t - tm)) eqn:E; [|reflexivity]. cbn [implb].
     apply andb_prop in E as [E1 E2]. rewrite C195; [reflexivity | apply H3; [exact E1 | lia]].
 Qed.
 
@@ -139,7 +139,7 @@ Proof.
         -- intros H0. apply Hn. rewrite Ns, H0. reflexivity.
         -- intros H0 H1. apply Hq; [rewrite Ns, H0; reflexivity | rewrite Lst; exact H1].
         -- intros _ Hold Hst. destruct (Hs Hst) as [Ha _]. apply Ha. unfold age_at.
-           assert (E : volvo_timeout_ms <? now - v_tx_time s = true) by lia. rewrite E. reflexivity.
+           assert (E : volvo_timeout_ms <=? now - v_tx_time s = true) by lia. rewrite E. reflexivity.
     + rewrite Lcmd.
       destruct (gov_ok (e_state (reported (v_ctx s))) (e_state (reported (v_ctx s))) (e_rpm (reported (v_ctx s))) NoAge) as (e & He & Hr & _).
       rewrite He.
